@@ -102,10 +102,18 @@ fn run(r: &mut Run) -> Result<(), MachineryError> {
             check_line(&line, cx);
         }
     })?;
+    // the escape grammar's byte ranges (bytes 0x21..=0x7F as CSI final / OSC payload byte)
+    r.range("C11/escape-grammar-scan", "for every byte b in 0x21..=0x7F the lines \"ESC[1bX12 345\" and \"ESC]8bX BEL 12 345\" x both separators", 95 * 2, move |i, cx| {
+        let b = (0x21 + (i % 95)) as u8 as char;
+        let line = if i / 95 == 0 { format!("\x1b[1{b}X12 345") } else { format!("\x1b]8{b}X\x0712 345") };
+        cx.seq = idx_seq(i);
+        cx.set_input(&line);
+        check_line(&line, cx);
+    })?;
     // deeper over the symbols that drive the state machines (spaces, hyphens, sequences, wide)
-    let core = [L, SP, HY, W, SHY, CSI, OSB, TAB, ZW];
-    let n = t.pick(6, 8);
-    let space = Space { name: "C11/lines-core-deeper".into(), menu: menu(&core), max_len: n, desc: format!("lines of length <= {} over the 9 symbols that drive the separators' state x both separators", n) };
+    let core = [L, SP, HY, W, SHY, CSI, OSB, TAB, ZW, CSIT, CSIL];
+    let n = t.pick(5, 7);
+    let space = Space { name: "C11/lines-core-deeper".into(), menu: menu(&core), max_len: n, desc: format!("lines of length <= {} over the 11 symbols that drive the separators' state (incl. a CSI ending in '~' and a 37-byte SGR sequence) x both separators", n) };
     r.space(space, |seq, cx| {
         let line = build(seq, &core);
         cx.set_input(&line);
